@@ -170,6 +170,44 @@ def check_vsize_ignored(ctx, prog):
                  (escaped, in_loop), fn=top, line=top.line)
 
 
+def check_streaming(ctx, fn):
+    """each assignment of the decoded word to ncp->numrecs: some test compares that word (or the field) with the all-ones
+    value of its width"""
+    ALL_ONES = {0xFFFFFFFF, 0xFFFFFFFFFFFFFFFF, -1}
+    n = 0
+    for b, i, e in fn.elements():
+        s_ = strip(e)
+        if not (isinstance(s_, dict) and s_.get("k") == "asg" and canon(strip(s_["a"])).endswith("->numrecs")):
+            continue
+        src = strip(s_["b"])
+        while isinstance(src, dict) and src.get("k") == "cast":
+            src = strip(src["e"])
+        if const_value(src) is not None:
+            continue
+        n += 1
+        word = canon(src)
+        ok = False
+        for blk in fn.blocks.values():
+            c = blk.cond
+            if c is None:
+                continue
+            for x in walk(c, into_pre=True):
+                if isinstance(x, dict) and x.get("k") == "bin" and x.get("op") in ("==", "!="):
+                    ta, tb = canon(strip(x["a"])), canon(strip(x["b"]))
+                    va, vb = const_value(x["a"]), const_value(x["b"])
+                    if (ta in (word, canon(strip(s_["a"]))) and vb in ALL_ONES) or (tb in (word, canon(strip(s_["a"]))) and va in ALL_ONES):
+                        ok = True
+        site = "numrecs<-%s@%s" % (word, "classic" if n == 1 else "cdf5")
+        inst = "%s:%s" % (fn.name, site)
+        if ok:
+            ctx.ok("R7.streaming", inst, "the word is compared with the STREAMING value")
+        else:
+            ctx.fail("R7.streaming", fn.name, site, "the record-count word is stored as a count without a test for the STREAMING value "
+                     "(all ones): a specification-valid streaming file reports 2^32-1 records (CDF-1/2) or is refused (CDF-5)",
+                     fn=fn, line=s_.get("l", fn.line), inst=inst)
+    ctx.require(n == 2, "R7.streaming: expected the two decodes of numrecs (32- and 64-bit), found %d" % n)
+
+
 def run(ctx):
     ctx.rule("R7.spec", "decoder productions equal the specification grammar for CDF-1/2/5")
     ctx.rule("R7.seq", "encoder and decoder agree production by production")
@@ -185,6 +223,9 @@ def run(ctx):
     check_fetch(ctx, prog)
     check_vsize_ignored(ctx, prog)
     c06.check_geomsrc(ctx, prog)
+    ctx.rule("R7.streaming", "the decoder of the record count recognises the specification's STREAMING alternative "
+             "(numrecs = NON_NEG | STREAMING: the all-ones word) before it takes the word as a count")
+    check_streaming(ctx, ctx.need_fn(ctx.program(names=["ncmpio_header_get.c"]), "ncmpio_hdr_get_NC"))
     from rules import r4decodeorder
     ctx.rule("R4.decodeorder", "ncmpio_hdr_get_NC: no field of the header object the decoder derives is read (by it or the functions it "
              "hands the object to, depth 3) before the write that derives it")
